@@ -49,7 +49,24 @@ func genCache(seed uint64, n int, path string) {
 		r := root.Fork()
 		rn, rd := ratTokens(wire.Pick(r, cacheRatios))
 		jn, jd := ratTokens(wire.Pick(r, cacheJitters))
-		out.Line("case", strconv.Itoa(i), "cache", rn, rd, jn, jd)
+		// variants of the client: OUTPUT_CERTS = the directory of the well-known cert paths (the agent must NOT read
+		// its own output back: "would never rotate"), RSA keys, PKCS#8 keys, no CA client at all
+		variant := ""
+		switch x := r.Intn(120); {
+		case x < 12:
+			variant = "outdir"
+		case x < 14:
+			variant = "rsa"
+		case x < 18:
+			variant = "pkcs8"
+		case x < 19:
+			variant = "nilca"
+		}
+		if variant == "" {
+			out.Line("case", strconv.Itoa(i), "cache", rn, rd, jn, jd)
+		} else {
+			out.Line("case", strconv.Itoa(i), "cache", rn, rd, jn, jd, variant)
+		}
 		signer := byte('A' + r.Intn(nRoots))
 		bundle := "-"
 		cfg := "-"
@@ -59,6 +76,9 @@ func genCache(seed uint64, n int, path string) {
 		var unfired []int
 		entries := 0
 		nops := 1 + r.Intn(30)
+		if variant == "rsa" {
+			nops = 1 + r.Intn(8) // RSA key generation is slow
+		}
 		for k := 0; k < nops; k++ {
 			switch x := r.Intn(100); {
 			case x < 55:
@@ -160,17 +180,26 @@ func execCache(in, outp string) {
 					s.close()
 					s = nil
 				}
-				if len(t) == 3 && t[2] == "citadel" {
-					s = newCitadelSUT(0.5, 0)
+				if (len(t) == 3 || len(t) == 7) && t[2] == "citadel" {
+					r, j := 0.5, 0.0
+					if len(t) == 7 {
+						r, _ = fracToken(t[3], t[4])
+						j, _ = fracToken(t[5], t[6])
+					}
+					s = newCitadelSUT(r, j)
 				}
-				if len(t) == 7 && t[2] == "cache" {
+				if (len(t) == 7 || len(t) == 8) && t[2] == "cache" {
 					r, ok1 := fracToken(t[3], t[4])
 					j, ok2 := fracToken(t[5], t[6])
 					if !ok1 || !ok2 {
 						out.Line("bad-op")
 						return
 					}
-					s = newSUT(r, j, false)
+					variant := ""
+					if len(t) == 8 {
+						variant = t[7]
+					}
+					s = newVariantSUT(r, j, variant)
 				}
 				out.Line("ok")
 				return
@@ -314,6 +343,7 @@ func oracleCache(in, outp string) {
 	started := false
 	var ratio, jitter float64
 	lastCARoots := "" // roots of the last successful CA response
+	nilCA := false    // variant: no CA client (every request that needs the CA must fail, nothing else happens)
 	flush := func() {
 		if started {
 			if verdict == "" {
@@ -338,12 +368,17 @@ func oracleCache(in, outp string) {
 				s = nil
 			}
 			ratio, jitter = 0.5, 0
-			if len(t) == 7 {
+			if len(t) >= 7 {
 				ratio, _ = fracToken(t[3], t[4])
 				jitter, _ = fracToken(t[5], t[6])
 			}
-			if len(t) == 3 && t[2] == "citadel" {
+			if len(t) >= 3 && t[2] == "citadel" {
 				s = newCitadelSUT(ratio, jitter)
+			}
+			nilCA = false
+			if len(t) == 8 && t[2] == "cache" {
+				s = newVariantSUT(ratio, jitter, t[7])
+				nilCA = t[7] == "nilca"
 			}
 			lastCARoots = ""
 			continue
@@ -411,6 +446,12 @@ func oracleCache(in, outp string) {
 				ev := s.takeEvents()
 				after := nacache.VerifCachedWorkload(s.sc)
 				dc := s.ca.calls() - calls0
+				if nilCA {
+					if err == nil || dc != 0 || after != nil || s.q.len() != q0 || ev != "-" {
+						fail("nil-ca-client", t, fmt.Sprint(err))
+					}
+					return
+				}
 				if before != nil && dc != 0 {
 					fail("hit-called-ca", t, fmt.Sprint(dc))
 				}
